@@ -341,12 +341,19 @@ def handlers_in(fi: FuncInfo):
 
 def handler_reraises(fi: FuncInfo, h: ast.ExceptHandler) -> bool:
     """Does every path through the handler body end in `raise`?"""
+    # the body is wrapped in a loop so that break/continue (leaving the handler normally) are
+    # representable; falling through, break, continue and return all reach the normal exit
+    loop = ast.For(target=ast.Name(id='_', ctx=ast.Store()), iter=ast.Name(id='_it', ctx=ast.Load()),
+                   body=list(h.body) + [ast.Break()], orelse=[], lineno=h.lineno, col_offset=0)
     mini = ast.FunctionDef(name='_h', args=ast.arguments(posonlyargs=[], args=[], kwonlyargs=[],
-                           kw_defaults=[], defaults=[]), body=h.body, decorator_list=[],
+                           kw_defaults=[], defaults=[]), body=[loop], decorator_list=[],
                            lineno=h.lineno, col_offset=0)
     g = CFG(mini, 'M0', name=fi.fid + ':handler')
-    # normal exit reachable => some path does not raise
-    return g.exit.id not in g.reachable()
+    # a path from the loop body to the normal exit => some path does not raise
+    body_entry = [v for n in g.nodes if n.kind == 'for' for v, lab in g.succ[n.id] if lab == 'iter']
+    if not body_entry:
+        return False
+    return g.exit.id not in g.reachable_from(g.nodes[body_entry[0]])
 
 
 def catches_broad(h: ast.ExceptHandler) -> bool:
@@ -378,5 +385,30 @@ def flows_from(rd, node: Node, expr, accept, depth: int = 0) -> bool:
                         break
                 if not ok:
                     return False
+        return True
+    return False
+
+
+def expr_is(ck: Check, fid: str, model: str, node: Node, expr, texts) -> bool:
+    """Is `expr` (evaluated at `node`) one of the source texts `texts`, possibly through local
+    aliases (a Name all of whose reaching definitions are plain assignments of such a text)?"""
+    if isinstance(texts, str):
+        texts = (texts,)
+    if expr is None:
+        return False
+    if norm(expr) in texts:
+        return True
+    if isinstance(expr, ast.Name):
+        rd = ck.rdefs(fid, model)
+        vals = rd.value_exprs(node, expr.id)
+        if not vals:
+            return False
+        for v in vals:
+            if isinstance(v, str):
+                return False
+            dn = [d for d in rd.defs_at(node, expr.id)
+                  if d.ast is not None and any(x is v for x in walk_shallow(d.ast))]
+            if not dn or not expr_is(ck, fid, model, dn[0], v, texts):
+                return False
         return True
     return False
